@@ -186,6 +186,13 @@ pub fn grammar(max_n: usize) -> Grammar {
     // one tag instance, a different partial name at every execution (and per data object)
     leaves.push(for_("pv", Src::Expr(Expr::var("names")), vec![Stmt::Render { name: Expr::var("pv"), form: RenderForm::Plain, args: vec![("x".into(), Expr::var("pv"))] }]));
     leaves.push(for_("pv", Src::Expr(Expr::var("names")), vec![Stmt::Include { name: Expr::var("pv"), args: vec![] }]));
+    // the partial's *name* is an expression of the caller: an argument (or with-as / for-as variable) spelled like the
+    // variable that holds the name is visible only inside the partial and never takes part in choosing it
+    leaves.push(Stmt::Include { name: Expr::var("pn"), args: vec![("pn".into(), Expr::s("p_probe"))] });
+    leaves.push(Stmt::Include { name: Expr::var("pn"), args: vec![("pn".into(), Expr::s("missing")), ("x".into(), Expr::s("?"))] });
+    leaves.push(Stmt::Render { name: Expr::var("pn"), form: RenderForm::Plain, args: vec![("pn".into(), Expr::s("p_probe"))] });
+    leaves.push(Stmt::Render { name: Expr::var("pn"), form: RenderForm::With(Expr::s("p_probe"), "pn".into()), args: vec![] });
+    leaves.push(Stmt::Render { name: Expr::var("pn"), form: RenderForm::For(Src::Expr(Expr::var("names")), "pn".into()), args: vec![] });
     leaves.push(Stmt::Assign("x".into(), Expr::s("?")));
     leaves.push(Stmt::Assign("y".into(), Expr::s("?")));
     leaves.push(Stmt::Incr("c".into()));
